@@ -205,6 +205,8 @@ impl source::Fetch for Pinned {
         // https://github.com/FuelLabs/sway/issues/7075
         {
             let _guard = lock.write()?;
+            #[cfg(fuellabs_sway_verif)]
+            sway_utils::verif::fault("Fetch.locked")?;
             if !repo_path.exists() {
                 println_action_green(
                     "Fetching",
@@ -423,6 +425,8 @@ where
 {
     // Clear existing temporary directory if it exists.
     let repo_dir = tmp_git_repo_dir(fetch_id, name, &source.repo);
+    #[cfg(fuellabs_sway_verif)]
+    sway_utils::verif::fault("tmp.rm_stale")?;
     if repo_dir.exists() {
         let _ = std::fs::remove_dir_all(&repo_dir);
     }
@@ -445,6 +449,8 @@ where
     });
 
     // Initialise the repository.
+    #[cfg(fuellabs_sway_verif)]
+    sway_utils::verif::fault("tmp.init")?;
     let repo = git2::Repository::init(&repo_dir)
         .map_err(|e| anyhow!("failed to init repo at \"{}\": {}", repo_dir.display(), e))?;
 
@@ -459,6 +465,8 @@ where
         fetch_opts.download_tags(git2::AutotagOption::All);
     }
     let repo_url_string = source.repo.to_string();
+    #[cfg(fuellabs_sway_verif)]
+    sway_utils::verif::fault("tmp.fetch_refs")?;
     repo.remote_anonymous(&repo_url_string)?
         .fetch(&refspecs, Some(&mut fetch_opts), None)
         .with_context(|| {
@@ -469,7 +477,11 @@ where
         })?;
 
     // Call the user function.
+    #[cfg(fuellabs_sway_verif)]
+    sway_utils::verif::fault("tmp.fetched")?;
     let output = f(repo)?;
+    #[cfg(fuellabs_sway_verif)]
+    sway_utils::verif::fault("tmp.done")?;
     Ok(output)
 }
 
@@ -520,6 +532,8 @@ pub fn fetch(fetch_id: u64, name: &str, pinned: &Pinned) -> Result<PathBuf> {
     with_tmp_git_repo(fetch_id, name, &pinned.source, |repo| {
         // Change HEAD to point to the pinned commit.
         let id = git2::Oid::from_str(&pinned.commit_hash)?;
+        #[cfg(fuellabs_sway_verif)]
+        sway_utils::verif::fault("fetch.set_head")?;
         repo.set_head_detached(id)?;
 
         // If the directory exists, remove it. Note that we already check for an existing,
@@ -527,12 +541,22 @@ pub fn fetch(fetch_id: u64, name: &str, pinned: &Pinned) -> Result<PathBuf> {
         if path.exists() {
             let _ = fs::remove_dir_all(&path);
         }
+        #[cfg(fuellabs_sway_verif)]
+        sway_utils::verif::fault("fetch.mkdir")?;
         fs::create_dir_all(&path)?;
 
         // Checkout HEAD to the target directory.
         let mut checkout = git2::build::CheckoutBuilder::new();
         checkout.force().target_dir(&path);
+        #[cfg(fuellabs_sway_verif)]
+        checkout.progress(|_path, _cur, _total| {
+            let _ = sway_utils::verif::fault("fetch.checkout.file");
+        });
+        #[cfg(fuellabs_sway_verif)]
+        sway_utils::verif::fault("fetch.checkout")?;
         repo.checkout_head(Some(&mut checkout))?;
+        #[cfg(fuellabs_sway_verif)]
+        sway_utils::verif::fault("fetch.checked_out")?;
 
         // Fetch HEAD time and create an index
         let current_head = repo.revparse_single("HEAD")?;
@@ -547,10 +571,14 @@ pub fn fetch(fetch_id: u64, name: &str, pinned: &Pinned) -> Result<PathBuf> {
         );
 
         // Write the index file
+        #[cfg(fuellabs_sway_verif)]
+        sway_utils::verif::fault("fetch.write_index")?;
         fs::write(
             path.join(".forc_index"),
             serde_json::to_string(&source_index)?,
         )?;
+        #[cfg(fuellabs_sway_verif)]
+        sway_utils::verif::fault("fetch.index_written")?;
         Ok(())
     })?;
     Ok(path)
